@@ -223,15 +223,24 @@ Lemma client_policy_is_client_only :
   forallb (fun n => mem_name n client_only) [n_accesslist; n_ratelimit; n_reflex; n_views] = true.
 Proof. vm_compute. reflexivity. Qed.
 
+Lemma queryer_sub_unfold handlers : queryer_sub handlers = sub_pipeline handlers client_only.
+Proof. reflexivity. Qed.
+Lemma prefetch_sub_unfold handlers : prefetch_sub handlers = sub_pipeline handlers (client_only ++ [cache_handler_name]).
+Proof. reflexivity. Qed.
+
 Theorem internal_subpipelines_have_no_client_policy h :
   In h (queryer_sub handler_order) \/ In h (prefetch_sub handler_order) ->
   ~ In h [n_accesslist; n_ratelimit; n_reflex; n_views] /\ ~ In h client_only.
 Proof.
   assert (Hco : forall x, In x [n_accesslist; n_ratelimit; n_reflex; n_views] -> In x client_only).
   { pose proof client_policy_is_client_only as H. rewrite forallb_forall in H. intros x Hx. apply mem_name_In, H, Hx. }
-  intros [H|H]; apply sub_pipeline_spec in H as [_ Hn].
-  - split; [intros Hx; apply Hn, Hco, Hx|exact Hn].
-  - split; [intros Hx; apply Hn, in_or_app; left; apply Hco, Hx|intros Hx; apply Hn, in_or_app; left; exact Hx].
+  (* the sub-pipelines are rewritten by an equation before sub_pipeline_spec is used: left to conversion under [In]
+     (a fixpoint applied to concrete lists) the kernel evaluates the filters at Qed (minutes) *)
+  intros [H|H].
+  - rewrite queryer_sub_unfold in H. apply sub_pipeline_spec in H. destruct H as [_ Hn].
+    split; [intros Hx; apply Hn, Hco, Hx|exact Hn].
+  - rewrite prefetch_sub_unfold in H. apply sub_pipeline_spec in H. destruct H as [_ Hn].
+    split; [intros Hx; apply Hn, in_or_app; left; apply Hco, Hx|intros Hx; apply Hn, in_or_app; left; exact Hx].
 Qed.
 
 (* the chain the binary registers is the list gen.go declares, and nothing that can
